@@ -181,6 +181,72 @@ theorem trigger_continuity (p : Pkt) (pts : Int) (hp : p.ts < two32) :
   simp only [two32] at *
   omega
 
+/-- a later sub stream finds the encoder of the stream and leaves SSRC, sequence and offset alone -/
+theorem initSF_keeps (cfg : Cfg) (s : SF) (a b c : Bool) (ssrc seq off : Nat) (h : s.enc.isSome = true) :
+    initSF cfg s a b c ssrc seq off = some s := by
+  have : s.enc.isNone = false := by
+    cases he : s.enc with
+    | none => rw [he] at h; cases h
+    | some _ => rfl
+  simp [initSF, this]
+
+theorem lifeStep_keeps {P : Type} (cfg : Cfg) (remux : P → Option P) (pack : P → List Raw) (s s' : SF)
+    (e : EncSt) (ev : LifeEv P) (he : s.enc = some e) (h : lifeStep cfg remux pack s ev = some s') :
+    s'.timeOffset = s.timeOffset ∧ ∃ e', s'.enc = some e' ∧ e'.ssrc = e.ssrc := by
+  cases ev with
+  | sub a b c ssrc seq off =>
+    simp only [lifeStep] at h
+    rw [initSF_keeps cfg s a b c ssrc seq off (by simp [he])] at h
+    cases h
+    exact ⟨rfl, e, he, rfl⟩
+  | unit pts inRtp payload =>
+    simp only [lifeStep] at h
+    cases hw : writeUnit cfg remux pack s pts inRtp payload with
+    | error x => rw [hw] at h; cases h; exact ⟨rfl, e, he, rfl⟩
+    | ok r =>
+      rw [hw] at h
+      obtain ⟨s2, out⟩ := r
+      simp only [Option.some.injEq] at h
+      subst h
+      rw [writeUnit_eq] at hw
+      cases ht : trigger cfg s pts inRtp with
+      | error x => rw [ht] at hw; cases hw
+      | ok s1 =>
+        rw [ht] at hw
+        have h1 : s1 = s := (trigger_spec cfg s pts inRtp s1 ht).1 (by simp [he])
+        subst h1
+        simp only at hw
+        cases payload with
+        | none => simp only at hw; cases hw; exact ⟨rfl, e, he, rfl⟩
+        | some pl =>
+          simp only [he] at hw
+          cases hr : remux pl with
+          | none => rw [hr] at hw; simp only at hw; cases hw; exact ⟨rfl, e, he, rfl⟩
+          | some pl' =>
+            rw [hr] at hw; simp only at hw; cases hw
+            exact ⟨rfl, _, rfl, rfl⟩
+
+/-- **fixed per-format offset over the whole life of a stream**: once the encoder of a stream format exists,
+no sequence of sub-stream initialisations and units — offline filler, publisher, filler again, another
+publisher … — changes `rtpTimeOffset` or the SSRC (the sequence number only advances by the packets generated,
+`writeUnit_generated`). -/
+theorem offset_fixed_for_life {P : Type} (cfg : Cfg) (remux : P → Option P) (pack : P → List Raw)
+    (evs : List (LifeEv P)) (s s' : SF) (e : EncSt) (he : s.enc = some e)
+    (h : lifeRun cfg remux pack s evs = some s') :
+    s'.timeOffset = s.timeOffset ∧ ∃ e', s'.enc = some e' ∧ e'.ssrc = e.ssrc := by
+  induction evs generalizing s e with
+  | nil => simp [lifeRun] at h; subst h; exact ⟨rfl, e, he, rfl⟩
+  | cons ev rest ih =>
+    simp only [lifeRun] at h
+    cases hs : lifeStep cfg remux pack s ev with
+    | none => rw [hs] at h; cases h
+    | some s1 =>
+      rw [hs] at h
+      simp only [Option.bind_some] at h
+      obtain ⟨h1, e1, he1, hss⟩ := lifeStep_keeps cfg remux pack s s1 e ev he hs
+      obtain ⟨h2, e2, he2, hss2⟩ := ih s1 e1 he1 h
+      exact ⟨h2.trans h1, e2, he2, hss2.trans hss⟩
+
 /-! ### (b1) the generic fragmenter -/
 
 theorem chunksAux_flatten (k : Nat) (hk : 0 < k) (fuel : Nat) (b : Bytes) (hf : b.length ≤ fuel) :
